@@ -12,6 +12,15 @@ CHECKS = {
  'C01': ('Hypothesis-generated models vs brute-force joint oracle; metamorphic relations (elimination order, constant shift, message schedule)',
          'Generated-input search: thousands of random structures/potentials/totals/orders/schedules per run, every clique marginal compared with an independent brute-force joint. Finds counterexamples, does not prove absence.',
          'Trusts numpy and the brute-force oracle in pbt/oracles.py; joint size capped at 4096 (quick) / 20000 (thorough) cells.'),
+ 'C12': ('exhaustive enumeration (all labelled graphs on <=5 attributes x all elimination orders) + Hypothesis-generated larger clique sets, judged by a junction-tree validity predicate',
+         'The n<=5 sub-space is enumerated completely on every quick run (exhaustive for that sub-space: ~130k trees); larger clique sets, order modes None/int and size-1 attributes are sampled with Hypothesis. Thorough adds 3-clique masks and all labelled 6-node graphs x 720 orders under a time cap.',
+         'Trusts the validity predicate in pbt/c12.py (pure-Python sets) and networkx only as used by the code under test.'),
+ 'C14': ('Hypothesis-generated factor pairs and one of ~45 operations vs a naive per-assignment reference (itertools.product)',
+         'Generated-input search over operand attribute orders/overlaps/sizes (incl. size 1), -inf patterns and all listed operations incl. in-place/out= variants and CliqueVector arithmetic; result compared cell by cell by attribute name.',
+         'Trusts the naive reference in pbt/c14.py; inputs stay inside the preconditions every caller meets (sub-domain right operands for / += *=, positive divisors or 0/0).'),
+ 'C15': ('Hypothesis-generated datasets/projections vs Counter-based contingency table; Domain methods vs an ordered-dict model',
+         'Generated-input search over domains, record sets (empty, duplicates, boundary), weights, shuffled/extra columns, projection orders and spellings; every Domain method compared with a plain model.',
+         'Trusts pandas/numpy and the Counter-based reference in pbt/c15.py.'),
 }
 NOT_YET = 'check not built yet (work in progress in this session); see DESIGN.md for the planned check'
 
